@@ -17,6 +17,7 @@ Sort: nx_constant_topological_sort on ALL DAGs with <= 4 (quick) / 5 (thorough) 
 names: the result is a topological order listing every node once, and is the same for every insertion order of nodes and edges tried.
 """
 import itertools
+import os
 import random
 
 import numpy as np
@@ -637,6 +638,127 @@ def run(tier='quick', seed=0, first_failure_only=True, n_models=None):
                 '<= 3 insertion orders, 3 request orders over one BatchHandler}; one seeded Rejection run repeated%s; native client'
                 % (n_models, list(seeds), list(sizes), '' if tier == 'quick' else '; SMC submit-override monitor'),
                 rule='non-trivial = model with >= 2 stochastic nodes (their relative order is observable in the draws)', cases=cases, nontrivial=nontriv, failures=failures)
+
+
+def _hist_sum(b, c):
+    return b + c
+
+
+def run_context_history(tier='quick', seed=0):
+    """a batch computed with PRESET node values (BatchHandler.submit(batch): what SMC does in every round after the first) must be a function
+    of (model, seed, batch index, batch size, requested outputs, preset values) - not of what the SAME ComputationContext computed earlier
+    (the executor keeps a per-context cache).  For small chains / forks of stochastic nodes and every non-empty set of preset inner nodes:
+    a handler with history [batch without presets; batch preset on OTHER nodes; this batch] against a fresh handler."""
+    elfi = native.import_elfi()
+    from elfi.client import BatchHandler
+    from elfi.model.elfi_model import ComputationContext
+
+    def chain():
+        m = elfi.ElfiModel(name='hist_chain')
+        h = elfi.RandomVariable('normal', 0, 1, model=m, name='h')
+        t = elfi.Prior('normal', h, 1, model=m, name='t')
+        elfi.RandomVariable('normal', t, 1, model=m, name='y')
+        return m, ['t', 'y'], [('t',), ('y',)]
+
+    def fork():
+        m = elfi.ElfiModel(name='hist_fork')
+        a = elfi.Prior('normal', 0, 1, model=m, name='a')
+        b = elfi.Prior('normal', a, 1, model=m, name='b')
+        c = elfi.RandomVariable('normal', a, 2, model=m, name='c')
+        sm = elfi.Operation(_hist_sum, b, c, model=m, name='sm')
+        elfi.RandomVariable('normal', sm, 1, model=m, name='y')
+        return m, ['a', 'b', 'c', 'y'], [('a',), ('b',), ('c',), ('a', 'b'), ('b', 'c')]
+    bs = 4
+    cases = 0
+    failures = []
+    for mk in (chain, fork):
+        for sd in ((3,) if tier == 'quick' else (0, 3, 11)):
+            m0, outs, presets = mk()
+            vals = {n: np.linspace(-1.0, 2.0, bs) + k for k, n in enumerate(outs)}
+            for ps in presets:
+                batch = {n: vals[n] for n in ps}
+                fresh = BatchHandler(mk()[0], ComputationContext(batch_size=bs, seed=sd), outs)
+                fresh.submit(dict(batch))
+                want0, _ = fresh.wait_next()
+                fresh.submit(dict(batch))
+                want1, _ = fresh.wait_next()
+                for first in [None] + [q for q in presets if q != ps][:2]:
+                    cases += 1
+                    h = BatchHandler(mk()[0], ComputationContext(batch_size=bs, seed=sd), outs)
+                    h.submit(None if first is None else {n: vals[n] for n in first})
+                    h.wait_next()
+                    h.submit(dict(batch))
+                    got1, i1 = h.wait_next()
+                    h.reset()
+                    h.submit(dict(batch))
+                    got0, i0 = h.wait_next()
+                    bad = [n for n in outs if not np.array_equal(got1[n], want1[n])] if i1 == 1 else ['<index>']
+                    bad0 = [n for n in outs if not np.array_equal(got0[n], want0[n])] if i0 == 0 else ['<index>']
+                    if bad or bad0:
+                        failures.append(dict(signature='c02:context-history', what='model %s seed %d: batch preset on %s after a batch %s on the same context gives outputs %s (batch 1) / %s (batch 0 after reset) '
+                                             'that differ from a fresh context' % (mk.__name__, sd, list(ps), 'without presets' if first is None else 'preset on %s' % list(first), bad, bad0),
+                                             input=dict(probe='context-history')))
+                        break
+                if failures:
+                    break
+            if failures:
+                break
+        if failures:
+            break
+    return dict(name='context-history', bound='2 models (chain h->t->y, fork a->{b,c}->y), every listed set of preset nodes, histories [unpreset or otherwise-preset batch; this batch; reset; this batch] on one '
+                'ComputationContext vs a fresh one; batch size 4; %d seed(s)' % (1 if tier == 'quick' else 3), rule='non-trivial = every case', cases=cases, nontrivial=cases, failures=failures)
+
+
+_HASH_CHILD = r"""
+import json, sys, importlib.util
+spec = importlib.util.spec_from_file_location('ex_under_test', sys.argv[1])
+import networkx as nx
+ex = importlib.util.module_from_spec(spec); spec.loader.exec_module(ex)
+names = ['alpha', 'beta', 'gamma', 'delta', 'eps', 'zeta', 'eta', 'theta', 'iota', 'kappa']
+out = []
+import random
+for k in range(int(sys.argv[2])):
+    rnd = random.Random(k)
+    n = 4 + k % 7
+    G = nx.DiGraph()
+    order = names[:n]
+    rnd.shuffle(order)
+    G.add_nodes_from(order)
+    for i in range(n):
+        for j in range(i + 1, n):
+            if k == 0 and i == 0 or rnd.random() < 0.35:
+                G.add_edge(order[i], order[j])
+    out.append([list(ex.nx_constant_topological_sort(G)), list(ex.nx_constant_topological_sort(G, reverse=True))])
+print(json.dumps(out))
+"""
+
+
+def run_sort_hash_seeds(tier='quick', seed=0):
+    """the sort must not depend on the iteration order of sets / dicts of node names: str hashes are randomised per interpreter process
+    (PYTHONHASHSEED), so the SAME graphs are sorted in child interpreters that differ only in the hash seed and the results compared"""
+    import subprocess
+    import sys as _sys
+    import json as _json
+    path = os.path.join(native.repo(), 'elfi', 'executor.py')
+    n = 12 if tier == 'quick' else 60
+    ref, failures = None, []
+    seeds = ('0', '1', '2', '3') if tier == 'quick' else tuple(str(i) for i in range(8))
+    for hs in seeds:
+        env = dict(os.environ, PYTHONHASHSEED=hs)
+        r = subprocess.run([_sys.executable, '-c', _HASH_CHILD, path, str(n)], capture_output=True, text=True, env=env, timeout=120)
+        if r.returncode != 0:
+            failures.append(dict(signature='c02:sort-hash-seed-crash', what='child with PYTHONHASHSEED=%s failed: %s' % (hs, r.stderr.strip().splitlines()[-1:] or ''), input=dict(probe='sort-hash-seeds')))
+            break
+        got = _json.loads(r.stdout)
+        if ref is None:
+            ref = got
+        elif got != ref:
+            k = next(i for i in range(len(ref)) if got[i] != ref[i])
+            failures.append(dict(signature='c02:sort-depends-on-hash-seed', what='graph %d: PYTHONHASHSEED=%s gives %s, PYTHONHASHSEED=%s gave %s' % (k, hs, got[k][0], seeds[0], ref[k][0]),
+                                 input=dict(probe='sort-hash-seeds')))
+            break
+    return dict(name='sort-across-hash-seeds', bound='%d DAGs of 4-10 string-named nodes (first: one node with edges to all others) sorted in %d child interpreters that differ only in PYTHONHASHSEED' % (n, len(seeds)),
+                rule='non-trivial = every graph', cases=n * len(seeds), nontrivial=n * len(seeds), failures=failures)
 
 
 def run_f14(tier='quick', seed=0):
